@@ -173,3 +173,91 @@ func VerifLemma_C11B_ImportClosure() {
 		verifCover("some file dropped")
 	}
 }
+
+// VerifLemma_C11B_Reorder: newImage(files, reorder=true) (the constructor behind NewImageForProto /
+// NewImageForCodeGeneratorRequest) on every dependency DAG over N files presented in every order: the image's files
+// are a permutation of the input in which every import (present in the image) precedes its importers; an input that
+// already is in DAG order is left as it is; duplicates are rejected.
+func VerifLemma_C11B_Reorder() {
+	n := verifParam("N")
+	paths := vgGraphPathList()
+	deps := make([][]int, n)
+	byIndex := make([]ImageFile, n)
+	for i := 0; i < n; i++ {
+		var depPaths []string
+		for j := 0; j < i; j++ {
+			if verifNondetBool() {
+				deps[i] = append(deps[i], j)
+				depPaths = append(depPaths, paths[j])
+			}
+		}
+		if i == n-1 && verifNondetBool() {
+			depPaths = append(depPaths, "missing.proto")
+		}
+		file, err := NewImageFile(
+			&descriptorpb.FileDescriptorProto{Name: vgStr(paths[i]), Dependency: depPaths},
+			nil, uuid.Nil, "", "", false, false, nil,
+		)
+		verifAssert(err == nil, "graph file is a valid image file")
+		byIndex[i] = file
+	}
+	// a permutation of 0..n-1, chosen structurally
+	remaining := make([]int, n)
+	for i := range remaining {
+		remaining[i] = i
+	}
+	order := make([]int, 0, n)
+	for len(remaining) > 0 {
+		k := verifNondetChoice(len(remaining))
+		order = append(order, remaining[k])
+		remaining = append(remaining[:k], remaining[k+1:]...)
+	}
+	input := make([]ImageFile, n)
+	sorted := true
+	for pos, idx := range order {
+		input[pos] = byIndex[idx]
+		if idx != pos {
+			sorted = false
+		}
+	}
+	if verifNondetBool() {
+		// duplicate path
+		_, err := newImage(append(input, byIndex[0]), true, nil)
+		verifAssert(err != nil, "a duplicate file is rejected")
+		verifCover("duplicate rejected")
+		return
+	}
+	image, err := newImage(input, true, nil)
+	verifAssert(err == nil, "files with distinct paths form an image")
+	if err != nil {
+		return
+	}
+	verifCover("reordered")
+	got := image.Files()
+	verifAssert(len(got) == n, "reordering neither drops nor adds files")
+	position := make([]int, n)
+	for i := range position {
+		position[i] = -1
+	}
+	for pos, file := range got {
+		for i := 0; i < n; i++ {
+			if file == byIndex[i] {
+				verifAssert(position[i] == -1, "no file appears twice after reordering")
+				position[i] = pos
+			}
+		}
+	}
+	for i := 0; i < n; i++ {
+		verifAssert(position[i] >= 0, "every input file is in the reordered image")
+		for _, j := range deps[i] {
+			verifAssert(position[j] >= 0 && position[j] < position[i], "after reordering imports precede their importers")
+		}
+		verifAssert(image.GetFile(paths[i]) == byIndex[i], "GetFile finds every file")
+	}
+	if sorted {
+		for i := 0; i < n; i++ {
+			verifAssert(position[i] == i, "an input already in DAG order keeps its order")
+		}
+		verifCover("already ordered")
+	}
+}
